@@ -28,7 +28,9 @@ EXTENDS Naturals, Integers, FiniteSets, Sequences, TLC, Json
 CONSTANTS MaxN,     \* all labelled graphs on 2..MaxN nodes (when Fixed is empty)
           RhoSet,   \* set of <<a, b>> with 0 < a < b : rho = a/b
           Fixed,    \* sequence of <<n, set of <<u,v>> (u<v)>> : if non-empty, ONLY these graphs
-          SetsToo   \* BOOLEAN: explore explicit initial sets (FALSE: rho scenarios only)
+          SetsToo,  \* BOOLEAN: explore explicit initial sets (FALSE: rho scenarios only)
+          MaxInf,   \* explicit sets: at most MaxInf initially infected nodes ...
+          MaxRec    \* ... and at most MaxRec initially recovered nodes (caps for the larger Fixed graphs)
 
 VARIABLES n,      \* number of nodes; Node == 1..n
           E,      \* set of <<u, v>>, u < v : the edges
@@ -127,6 +129,10 @@ Z0 == LET F(A, R, u) == Ind(A, R, u, "R") IN Vec(F, Node)
 XY0 == LET F(A, R, u, v) == IndP(A, R, u, v, "S", "I") IN Mat(F, Node)
 XX0 == LET F(A, R, u, v) == IndP(A, R, u, v, "S", "S") IN Mat(F, Node)
 
+\* EBCM: theta(t) = probability that a random edge has not transmitted to its (test) end
+\* by time t; nothing has been transmitted at tmin, so theta(tmin) = 1 (numerator over Den)
+Theta0 == Den
+
 (***************************************************************************)
 (* Mutual consistency of the counting conventions.                         *)
 (***************************************************************************)
@@ -215,6 +221,7 @@ InFamily == IF mode = "sets"
 Init == /\ \E g \in Graphs : n = g[1] /\ E = g[2]
         /\ \/ /\ SetsToo /\ mode = "sets" /\ rho = <<0, 1>>
               /\ inf \in SUBSET (1..n) /\ rec \in SUBSET (1..n)
+              /\ Cardinality(inf) <= MaxInf /\ Cardinality(rec) <= MaxRec
            \/ /\ mode = "rho" /\ rho \in RhoSet /\ inf = {} /\ rec = {}
         /\ InFamily
         /\ phase = "chosen"
@@ -241,7 +248,8 @@ Scenario ==
      IkIl |-> MatSeq(IkIl0, Degs),
      Ssi |-> MatSeq(Ssi0, Degs), Isi |-> MatSeq(Isi0, Degs), Skappa |-> SeqOf(Skappa0, Degs),
      X |-> SeqOf(X0, Node), Y |-> SeqOf(Y0, Node), Z |-> SeqOf(Z0, Node),
-     XY |-> MatSeq(XY0, Node), XX |-> MatSeq(XX0, Node)]
+     XY |-> MatSeq(XY0, Node), XX |-> MatSeq(XX0, Node),
+     theta |-> Theta0]
 
 Emit == /\ phase = "chosen" /\ phase' = "emitted"
         /\ PrintT(<<"IC", ToJson(Scenario)>>)
